@@ -1709,18 +1709,24 @@ func (env *LEnv) call(ctx context.Context, fun *LVal, args *LVal) *LVal {
 	if fn != nil {
 		// Bridge ctx onto env so builtins that call env.Eval() pick it up.
 		// Save and restore to prevent stale ctx from leaking after the
-		// builtin returns.
+		// builtin returns.  The restore is deferred so that it also runs
+		// when the builtin panics (eval recovers the panic further up).
 		prev := env.evalCtx
 		env.evalCtx = ctx
+		defer func() { env.evalCtx = prev }()
 		val := fn(env, list)
-		env.evalCtx = prev
 		if val == nil {
 			return env.Errorf("internal error: builtin %s returned nil", env.GetFunName(fun))
 		}
 		if val.Type == LMarkTerminal {
 			env.Runtime.Stack.Top().Terminal = true
 			termEnv := val.Native.(*LEnv)
+			// The terminal expression's environment gets ctx for the
+			// duration of its evaluation only; without the restore a
+			// cancelled ctx stays on termEnv and fails later evaluations.
+			prevTerm := termEnv.evalCtx
 			termEnv.evalCtx = ctx
+			defer func() { termEnv.evalCtx = prevTerm }()
 			return termEnv.eval(ctx, val.Cells[0])
 		}
 		return val
